@@ -81,7 +81,7 @@ impl Oracle for Tracer {
                         Probe::Hc(h) => println!("               #{} probe ep{} X={} rtt={:?} flush_alloc={} sendq={} pend={} resend={} txbuf={} fwin={}..{} pwin={}..{} rxbase={} heap={}", call, ep, h.send_rate, h.rtt_ms, h.flush_alloc, h.send_queue_len, h.pending_queue_len, h.resend_queue_len, h.tx_total_size, h.tx_frame_window_base_id, h.tx_frame_next_id, h.tx_packet_base_id, h.tx_packet_next_id, h.rx_packet_base_id, heap_live),
                         Probe::Client(c) => println!("               #{} probe ep{} client state={} X={:?}", call, ep, c.state, c.hc.as_ref().map(|h| h.send_rate)),
                         Probe::Server(s) => println!("               #{} probe ep{} server clients={} active={} timers={} states={:?}", call, ep, s.clients_len, s.active_clients_len, s.timer_queue_len, s.clients.iter().map(|c| c.state).collect::<Vec<_>>()),
-                        Probe::None => (),
+                        Probe::Rate(_) | Probe::None => (),
                     }
                 }
             }
